@@ -666,6 +666,14 @@ def check_c15(tier):
                 m = solution_ok(I, f, int(opt))
                 if m: sc.chk.violation("property", "default-completed solution is not feasible: %s (%s)" % (m, case), ctx)
     sc.agree = 0; sc.total = 0
+    # diagram level, pooled flavour, long arcs AND shared stores (as the caching solvers use the diagram): cache keys, thresholds, pruning flags
+    import check_mdd
+    st = check_mdd.Stream(sc.chk, tier, types=(2, 1), widths=(1, 2, 3), flavours=(2,), ninst=(60 if tier == "quick" else 600), stores=True, longarcs=True)
+    res = st.run()
+    ag, ds = check_mdd.correspondence(sc.chk, res, ["status", "cx", "cv", "x", "bv", "ev", "CS", "DOT", "LOG"])
+    sc.stats["diagram_level_store_stream"] = {"compilations": sum(len(r) for _, r in res), "agreements": ag, "disagreements": len(ds)}
+    for (I, meta, li, lm, case, why) in ds[:10]:
+        sc.dis.append((I, case, li[:1200], lm[:1200], "diagram-level (pooled, long arcs, shared stores) " + str(why)))
     return sc.finish("depth-free table models with random irrelevance patterns (a neutral default decision on irrelevant (variable, state) pairs), widths 1..3, "
                      "cache on/off, both fringes; pooled solver vs plain solver (every state expanded on every variable) vs exhaustive enumeration; "
                      "non-trivial = distinct pooled run",
